@@ -54,6 +54,7 @@ func LoadProg() (*Prog, error) {
 	prog, spkgs := ssautil.AllPackages(pkgs, ssa.NaiveForm|ssa.GlobalDebug|ssa.InstantiateGenerics)
 	prog.Build()
 	p := &Prog{fset: prog.Fset, prog: prog, pkgs: pkgs, spkgs: spkgs, funcs: map[string]*ssa.Function{}, tpkgs: map[string]*types.Package{}, infos: map[*types.Package]*types.Info{}}
+	posKeyFset = prog.Fset
 	for fn := range ssautil.AllFunctions(prog) {
 		p.funcs[fn.String()] = fn
 	}
